@@ -3,6 +3,7 @@ import Ptn.Common.EinsumBuilt
 
 * `eval_dependsOn`            the value of a well-formed expression reads only its labels;
 * `sumPairs_eq_zero_of`       a sum whose summand vanishes on every assignment reachable from `σ` vanishes;
+* `eval_zero_of_leaf_zero`  zero padding of an open leg of one leaf survives the contraction;
 * `root_value_of_sum`         a program whose record sums like `rp ++ X.binds` and whose leaves are a root tensor
                               `rv` and the leaves of `X` evaluates to `Σ_rp rv · X` (`root_value_of_record`: record
                               known exactly; `root_value_of_unord_record`: record known as unordered pairs);
@@ -135,5 +136,27 @@ theorem identity_root_padded (dim : L → Nat) (rK gK rB gB : L) (G : Asg L → 
     intro b _
     rw [hK0 _ (by rw [eK]; exact ha), mul_zero]
   · intro h; exact absurd (mem_range.2 hdK) h
+
+theorem prodL_eq_zero {xs : List R} (h : (0 : R) ∈ xs) : prodL xs = 0 := by
+  induction xs with
+  | nil => simp at h
+  | cons x xs ih =>
+    rcases List.mem_cons.1 h with h | h
+    · simp [prodL, ← h]
+    · simp [prodL, ih h]
+
+/-- **A zero slice of one leaf is a zero slice of the whole contraction.**  If a leaf tensor of a strongly
+well-formed expression vanishes whenever the index of the leg `g` is not `0`, and `g` is still open, then the
+value of the expression vanishes whenever the index of `g` is not `0` (zero padding of a bond survives the
+contraction of the rest of the network). -/
+theorem eval_zero_of_leaf_zero (dim : L → Nat) (e : Expr L R) (he : e.SWF) (g : L) (hg : g ∈ e.free)
+    (lf : List L × (Asg L → R)) (hlf : lf ∈ e.leaves) (hz : ∀ ρ : Asg L, ρ g ≠ 0 → lf.2 ρ = 0)
+    (τ : Asg L) (hτ : τ g ≠ 0) : e.eval dim τ = 0 := by
+  rw [eval_eq_full dim e he.wf]
+  apply sumPairs_eq_zero_of
+  intro ρ hρ
+  apply prodL_eq_zero
+  refine List.mem_map.2 ⟨lf, hlf, ?_⟩
+  exact hz ρ (by rw [hρ g (free_not_bound e he g hg)]; exact hτ)
 
 end Ptn.C16.Val
